@@ -546,7 +546,7 @@ func main() {
 	r.Set("registered_event_kinds", registered)
 	r.Set("registered_without_handler", unhandled)
 	r.Set("deliveries", deliveries)
-	r.Set("states", states)
+	r.Set("membership_states", states)
 	r.Rule("deliveries = {startup (innerring.New+Server.Start), RPC reconnect, basic-income timer, new-epoch timer} + every (contract,type) with a handler in the FS/main chain listeners' registration tables of the real server (read at run time); x 6 alphabet states; one well-formed raw event each (notary requests are also delivered a second time); non-trivial = delivery for which the member run produced >=1 alphabet-authority call (required for every delivery except reconnect, else harness error). Part 2 (lookup histories, real index cache with 1 h timeout): every delivery except start-up x environment at start {member, non-member, committee lookup error, inner ring list lookup error} x environment at delivery (same 4) x {no, one} plain IsAlphabet() query after the cache expired (innerRingIndexer.reset) x the event delivered twice (fresh transactions); judged at both deliveries against the environment at delivery time; non-trivial = history ending in a non-member environment, or in member with calls")
 	r.Exhaustive(true)
 	r.Assume("chain reads are answered from tables and every chain-mutating morph client call succeeds (no RPC faults)",
